@@ -41,6 +41,9 @@ var c26Assumptions = []string{
 	"while finding " + c26FindMergePrefix + " is listed open, a disagreement on a join over a table that has a prefix index and whose dolt plan contains a MergeJoin is attributed to it (counted as excluded_known); the pinned sub-test reports it",
 	"while finding " + c26FindLookupPrefix + " is listed open, a disagreement on a join over a table that has a prefix index and whose dolt plan contains a LookupJoin is attributed to it (counted as excluded_known); the pinned sub-test reports it",
 	"while finding " + c26FindPrefixLower + " is listed open, a disagreement where dolt returns a subset of the reference rows for a query over a table with a prefix index and dolt's plan uses an index is attributed to it (counted as excluded_known); the pinned sub-test reports it",
+	"while finding " + c26FindPrefixOnPK + " is listed open, secondary indexes get no prefix length on primary-key columns (counted as excluded_known); the pinned sub-test reports it",
+	"a secondary index the memory engine fails to build is dropped from dolt as well (counted as excluded_known, class reference_rejected_index)",
+	"a query on which the reference engine's connection dies (the memory engine panicked) is skipped and counted as excluded_known (class reference_engine_crashed)",
 	"while finding " + c26FindKeylessCount + " is listed open, `SELECT COUNT(col) FROM <keyless table>` is not generated (counted as excluded_known); the pinned sub-test reports it",
 }
 
@@ -74,6 +77,7 @@ type qCase struct {
 	db      string
 	d       *vsql.Session
 	m       *qConn
+	mem     *qMem
 	mCur    string
 	tables  []*qTable
 	commits []qCommit
@@ -410,6 +414,31 @@ func c26PinnedPrefixLower(t *testing.T, srv *vsql.Server, admin *vsql.Session) s
 	return ""
 }
 
+// c26FindPrefixOnPK: a secondary index with a prefix length on a primary-key column (KEY (c2,
+// k1(1)) with k1 in the primary key) is left inconsistent by UPDATE: the next scan of that index
+// panics with "malformed tuple" (the primary-key lookup built from the index entry finds no row).
+const c26FindPrefixOnPK = "C26-prefix-index-on-pk-update"
+
+func c26PinnedPrefixOnPK(t *testing.T, srv *vsql.Server, admin *vsql.Session) string {
+	db := srv.NewDBName()
+	admin.MustExec(t, "CREATE DATABASE "+db)
+	defer admin.Exec("DROP DATABASE " + db)
+	s := srv.Session(t, "pinned", db)
+	defer s.Close()
+	s.MustExec(t, "CREATE TABLE t0 (k0 INT NOT NULL, k1 VARCHAR(16) NOT NULL, c2 VARCHAR(8), PRIMARY KEY (k0,k1), KEY i0 (c2, k1(1)))")
+	s.MustExec(t, "INSERT INTO t0 VALUES (1,'za','A'),(2,'b','B')")
+	s.MustExec(t, "UPDATE t0 SET c2 = 'a' WHERE k0 = 1 AND k1 = 'za'")
+	q := "SELECT k0, k1, c2 FROM t0 FORCE INDEX (i0) WHERE c2 IS NOT NULL"
+	r, err := s.Query(q)
+	if err != nil {
+		return "t0(k0, k1 VARCHAR(16), c2, PRIMARY KEY (k0,k1), KEY i0 (c2, k1(1))) rows (1,'za','A'),(2,'b','B'); UPDATE t0 SET c2='a' WHERE k0=1 AND k1='za'; " + q + " fails: " + qClip(err.Error(), 120)
+	}
+	if got := vsql.Show(r.Sorted()); got != "(1,za,a) (2,b,B)" {
+		return q + " returned " + got + " want (1,za,a) (2,b,B)"
+	}
+	return ""
+}
+
 // c26FindKeylessCount: on a keyless table `SELECT COUNT(col) FROM t` (count fast path of
 // kvexec/count_agg.go) tests the NULL-ness of the value field one position to the left of col
 // (keyless value tuples start with the cardinality field).
@@ -483,6 +512,15 @@ func (c *qCase) runQuery(q qQuery) {
 		descRev = fmt.Sprintf("<hash of c%d>", target)
 	}
 	desc := c.sig + " :: " + qRender(q.SQL, mode, "db", descRev)
+	if merr != nil && (strings.Contains(merr.Error(), "invalid connection") || strings.Contains(merr.Error(), "bad connection") || strings.Contains(merr.Error(), "EOF")) {
+		// the memory engine panicked and dropped the connection: nothing to compare with
+		c.rec.Excluded(1)
+		c.rec.Class("reference_engine_crashed", 1)
+		c.m.Close()
+		c.m = c.mem.Conn(rt, "")
+		c.mCur = ""
+		return
+	}
 	if derr != nil && merr != nil {
 		c.rec.Case(desc, false, append(classes, "both_error")...)
 		return
@@ -731,6 +769,17 @@ func TestVerif_C26(t *testing.T) {
 			t.Errorf("%s", msg)
 		}
 	})
+	qNoPrefixOnPK = vh.OpenFinding("C26", c26FindPrefixOnPK)
+	t.Run("pinned_prefix_index_on_pk_update", func(t *testing.T) {
+		if msg := c26PinnedPrefixOnPK(t, srv, admin); msg != "" {
+			if vh.OpenFinding("C26", c26FindPrefixOnPK) {
+				vh.ReportKnown("C26", c26FindPrefixOnPK, msg)
+				return
+			}
+			vh.NoteViolation(t.Name(), "", `{"sql":["CREATE TABLE t0 (k0 INT NOT NULL, k1 VARCHAR(16) NOT NULL, c2 VARCHAR(8), PRIMARY KEY (k0,k1), KEY i0 (c2, k1(1)))","INSERT INTO t0 VALUES (1,'za','A'),(2,'b','B')","UPDATE t0 SET c2 = 'a' WHERE k0 = 1 AND k1 = 'za'","SELECT k0, k1, c2 FROM t0 FORCE INDEX (i0) WHERE c2 IS NOT NULL"],"observed":"`+strings.ReplaceAll(msg, `"`, `'`)+`"}`)
+			t.Errorf("%s", msg)
+		}
+	})
 	t.Run("pinned_valuerow_null_comparison", func(t *testing.T) {
 		if msg := c26PinnedValueRowNull(t, srv, admin); msg != "" {
 			if vh.OpenFinding("C26", c26FindValueRowNull) {
@@ -748,7 +797,7 @@ func TestVerif_C26(t *testing.T) {
 		admin.MustExec(rt, "CREATE DATABASE "+db)
 		defer admin.Exec("DROP DATABASE " + db)
 		madmin.MustExec(rt, "CREATE DATABASE "+db)
-		c := &qCase{rt: rt, rec: rec, db: db}
+		c := &qCase{rt: rt, rec: rec, db: db, mem: mem}
 		defer func() {
 			for _, cm := range c.commits {
 				_ = madmin.Exec("DROP DATABASE `" + cm.MemDB + "`")
@@ -759,7 +808,7 @@ func TestVerif_C26(t *testing.T) {
 		defer c.d.Close()
 		c.m = mem.Conn(rt, db)
 		c.mCur = db
-		defer c.m.Close()
+		defer func() { c.m.Close() }()
 		// plans must not depend on when the background statistics worker last ran
 		_ = c.d.Exec("CALL dolt_stats_stop()")
 
@@ -794,11 +843,29 @@ func TestVerif_C26(t *testing.T) {
 			}
 		}
 		for _, t := range c.tables {
+			var keep []qIndex
 			for _, ix := range t.Idx {
-				if ix.Late {
-					c.both(fmt.Sprintf("ALTER TABLE `%s` ADD %s", t.Name, ix.ddl(t)))
+				if !ix.Late {
+					keep = append(keep, ix)
+					continue
 				}
+				sql := fmt.Sprintf("ALTER TABLE `%s` ADD %s", t.Name, ix.ddl(t))
+				if err := c.d.Exec(sql); err != nil {
+					rt.Fatalf("HARNESS/dolt rejected setup statement %s: %v", sql, err)
+				}
+				c.memUse(c.db)
+				if err := c.m.Exec(sql); err != nil {
+					// the memory engine cannot build this index (seen: UNIQUE index over a TIME column and a
+					// VARCHAR key: "string ... is too large for column"): the index is dropped from dolt too
+					rec.Excluded(1)
+					rec.Class("reference_rejected_index", 1)
+					c.d.MustExec(rt, fmt.Sprintf("ALTER TABLE `%s` DROP INDEX `%s`", t.Name, ix.Name))
+					continue
+				}
+				c.script = append(c.script, sql+";")
+				keep = append(keep, ix)
 			}
+			t.Idx = keep
 		}
 		if rapid.Bool().Draw(rt, "analyze") {
 			// dolt only: the memory engine's ANALYZE panics on empty tables (divide by zero in
@@ -810,7 +877,7 @@ func TestVerif_C26(t *testing.T) {
 			}
 		}
 		defer func() {
-			for _, k := range []string{"decimal_type_extreme_literal"} {
+			for _, k := range []string{"decimal_type_extreme_literal", "prefix_index_on_pk_column"} {
 				if n := qExcludedLits[k]; n > 0 {
 					rec.Excluded(n)
 					rec.Class("excluded:"+k, n)
